@@ -73,6 +73,12 @@ def limit_programs():
         out.append(("limit:map:%d" % n, "var v = {%s};\nprint(v.len());\n" % ", ".join("%d: 1" % i for i in range(n)), {}))
         out.append(("limit:params:%d" % n, "fn f(%s) { return 0; }\nprint(\"done\");\n" % ", ".join("p%d" % i for i in range(n)), {}))
         out.append(("limit:locals:%d" % n, "{\n%s\nprint(\"done\");\n}\n" % "\n".join("var l%d = %d;" % (i, i) for i in range(n)), {}))
+        # the hidden locals of `for` (loop variable + iterator) and of a class with a superclass (`super`) count against the limit too
+        for m in (n - 3, n - 2, n - 1):
+            decls = "\n".join("var l%d = %d;" % (i, i) for i in range(m))
+            out.append(("limit:localsfor:%d:%d" % (m, m - 1), "fn f() {\n%s\nvar s = 0;\nfor x in [1, 2] { s = s + x; }\nvar z = 5;\nprint(s);\nprint(z);\nprint(l%d);\n}\nf();\n" % (decls, m - 1), {}))
+            out.append(("limit:localsclass:%d:%d" % (m, m - 1), "class Base { fn hi(self) { return \"hi\"; } }\nfn f() {\n%s\n#[derive(Base), constructor(new)]\nclass Sub { fn hi(self) { return super.hi() + \"!\"; } }\n"
+                        "var z = 5;\nprint(Sub.new().hi());\nprint(z);\nprint(l%d);\n}\nf();\n" % (decls, m - 1), {}))
         out.append(("limit:upvalues:%d" % n, "fn outer() {\n%s\nfn inner() { return %s; }\nreturn inner();\n}\nprint(\"done\");\n" % (
             "\n".join("var l%d = %d;" % (i, i) for i in range(min(n, 250))), " + ".join("l%d" % i for i in range(min(n, 250)))), {}))
         # n captured variables in ONE function: 200 come from two levels up, the rest from the enclosing function; the last one is
@@ -190,6 +196,10 @@ def correspondence(ctx, model_ok=True):
         expect = {"jump": ["done"], "loop": ["2", "done"], "try": ["caught", "done"]}.get(kind)
         if r.get("status") == "err" and r.get("kind") == "CompileError":
             ok = True
+        elif r.get("status") == "ok" and kind == "localsfor":
+            ok = r.get("printed") == ["3", "5", name.split(":")[3]]
+        elif r.get("status") == "ok" and kind == "localsclass":
+            ok = r.get("printed") == ["hi!", "5", name.split(":")[3]]
         elif r.get("status") == "ok" and kind == "upvalues2":
             ok = r.get("printed") == [name.split(":")[3], "0", "written"]
         elif r.get("status") == "ok" and kind == "interpshape":
